@@ -137,15 +137,16 @@ type slAgg struct {
 // slRun collects the findings of one line; it is closed when the watchdog fires so that
 // an abandoned goroutine cannot add anything later.
 type slRun struct {
-	mu     sync.Mutex
-	closed bool
-	kind   string // c12 | c13 | c13bytes
-	prop   string
-	agg    map[string]*slAgg
-	order  []string
-	stage  string
-	tags   map[string]bool
-	debug  string
+	mu      sync.Mutex
+	closed  bool
+	kind    string // c12 | c13 | c13bytes
+	prop    string
+	agg     map[string]*slAgg
+	order   []string
+	stage   string
+	stageAt time.Time // the watchdog measures the time spent in ONE stage
+	tags    map[string]bool
+	debug   string
 }
 
 func (x *slRun) report(sig, detail string) {
@@ -166,6 +167,7 @@ func (x *slRun) report(sig, detail string) {
 func (x *slRun) setStage(s string) {
 	x.mu.Lock()
 	x.stage = s
+	x.stageAt = time.Now()
 	x.mu.Unlock()
 }
 
@@ -302,14 +304,25 @@ func (e *slExec) Do(line string) string {
 		}
 	}()
 	var out string
-	select {
-	case out = <-done:
-	case <-time.After(slWatchdog):
-		run.mu.Lock()
-		st := run.stage
-		run.mu.Unlock()
-		run.report(run.kind+"-hang", sprintf("line %q did not finish within %s; last stage: %s", line, slWatchdog, st))
-		out = run.kind + " hang stage=" + slClip(st, 80)
+	run.setStage("start")
+	tick := time.NewTicker(250 * time.Millisecond)
+	defer tick.Stop()
+wait:
+	for {
+		select {
+		case out = <-done:
+			break wait
+		case <-tick.C:
+			run.mu.Lock()
+			st, since := run.stage, time.Since(run.stageAt)
+			run.mu.Unlock()
+			if since < slWatchdog {
+				continue
+			}
+			run.report(run.kind+"-hang", sprintf("line %q: one stage did not finish within %s; stage: %s", line, slWatchdog, st))
+			out = run.kind + " hang stage=" + slClip(st, 80)
+			break wait
+		}
 	}
 	if os.Getenv("SLDEBUG") != "" {
 		os.Stderr.WriteString(line + " => " + out + " | " + run.debug + "\n")
